@@ -135,7 +135,7 @@ class CursorEngine:
     # ------------------------------------------------------------------ contexts
     def ctxkey(self, fd, bound, avail, eof):
         consts = tuple(sorted((k, v) for k, v in bound.items()
-                              if v[0] in ('const', 'func', 'cursor', 'closure')))
+                              if v[0] in ('const', 'func', 'cursor', 'closure', 'emptytok', 'tok')))
         return (fd.fq if not isinstance(fd, Closure) else ('closure', id(fd.node)), consts, avail, eof)
 
     def analyse(self, fd, bound, avail, eof, chain):
@@ -227,7 +227,7 @@ def lift(v):
 def summarise(v):
     """return values crossing a call boundary: keep what callers test"""
     t = v[0]
-    if t in ('const', 'truthy', 'falsy', 'tok', 'seq', 'unknown', 'int?', 'cursor', 'node'):
+    if t in ('const', 'truthy', 'falsy', 'tok', 'seq', 'unknown', 'int?', 'cursor', 'node', 'emptytok'):
         return v
     if t == 'tuple':
         return ('tuple', tuple(summarise(x) for x in v[1]))
@@ -346,18 +346,22 @@ class CursorInterp(Interp):
                 return [(('unknown',), self.moved(st, -a[1]))]
             if a[0] == 'posdiff':
                 # current position (sym, lo..hi) minus (A, a) plus (B, b)
-                (A, a_lo, a_hi), (B, b_lo, b_hi) = a[1], a[2]
+                (A, a_lo, a_hi), (B, b_lo, b_hi) = a[1][:3], a[2][:3]
+                snap_avail = a[2][3] if len(a[2]) > 3 else 0
                 if A == st.sym and a_lo == st.lo and a_hi == st.hi:
                     s = st.copy()
                     s.sym, s.lo, s.hi = B, b_lo, b_hi
-                    s.avail = 0 if True else s.avail
+                    # what was consumed since the snapshot exists again at the cursor
+                    back = (a_lo - b_lo) if (A == B and isinstance(a_lo, int) and isinstance(b_lo, int)) else 0
+                    s.avail = min(CAP_AVAIL, max(st.avail + max(back, 0), snap_avail, 1 if (A == B and (a_lo, a_hi) != (b_lo, b_hi)) else 0))
                     s.eof = False
                     self.invalidate(s)
                     return [(('unknown',), s)]
             s = self.moved_unknown(st, -8, 0, 0, False, sym='U%d' % id(n))
             return [(('unknown',), s)]
         if meth == 'position':
-            return [(('pos', st.sym, st.lo, st.hi), st)]
+            # the snapshot also remembers what was known to exist there (restored by a rollback to it)
+            return [(('pos', st.sym, st.lo, st.hi, st.avail), st)]
         return None
 
     # ------------------------------------------------------------------ expressions
@@ -488,6 +492,15 @@ class CursorInterp(Interp):
                     outs.append((base[1][idx[1]], s1))
                 except IndexError:
                     outs.append((Raised('IndexError', n), s1))
+                continue
+            if base[0] in ('emptytok', 'tok') and idx[0] == 'const' and isinstance(idx[1], int):
+                ok = base[0] == 'tok'
+                self.eng.site('subscript', self.fd, n, ok)
+                if not ok:
+                    self.eng.note('unguarded-subscript', self.realfd, n,
+                                  'constant subscript of a token whose text may be empty (the command name read at the '
+                                  'very end of the input): IndexError', self.chain, s1)
+                outs.append((('unknown',), s1))
                 continue
             if base[0] == 'seq' and idx[0] == 'const' and isinstance(idx[1], int):
                 ok = base[1] is True and idx[1] in (0, -1)
@@ -666,6 +679,9 @@ class CursorInterp(Interp):
             if isinstance(tgt, ast.Name) and tgt.id in s.vars and fv[1] in ('append', 'insert'):
                 s.vars[tgt.id] = ('seq', True)
             return [(('const', None), s)]
+        if t == 'class' and fv[1].name == 'Token' and args and args[0] == ('const', ''):
+            # Token('', ...): a token with empty text (the only way the reader makes one)
+            return [(('emptytok',), st)]
         if t == 'class':
             eng.calls_opaque['ctor'] += 1
             if any(b == 'list' for b in [x if isinstance(x, str) else None for c in fv[1].mro
@@ -731,6 +747,17 @@ class CursorInterp(Interp):
             if args and args[0][0] == 'func':
                 return [(('peekwrap', args[0][1]), st)]
             raise AnalysisError('wrapper factory %s applied to a non-function at %s' % (fd.qual, self.where(n)))
+        takes_cursor = any(a[0] == 'cursor' for a in list(args) + list(kw.values()))
+        if fd.module.name == 'reader' and fd.cls is None and not takes_cursor:
+            # a helper of the reader without the cursor (e.g. a signature look-up): analysed in context for what it
+            # does to its arguments; it cannot move the cursor
+            defaults = {p: self.eng.fold_default(d, fd) for p, d in fd.defaults().items()}
+            bound = self.bind(fd.params(), defaults, args, kw, n)
+            chain = self.chain + ('%s:%s' % (self.realfd.qual, getattr(n, 'lineno', 0)),)
+            exits, raises = eng.analyse(fd, bound, st.avail, st.eof, chain)
+            outs = [(ex.ret, st) for ex in exits]
+            outs += [(Raised(exc, n, 'from %s' % fd.qual), st) for exc in raises]
+            return outs or [(('unknown',), st)]
         if fd.module.name not in ('reader', 'utils') or (fd.cls is not None and fd.cls.name != 'Buffer'):
             # functions of other modules (constructors handled elsewhere): opaque unless they take the cursor
             if any(a[0] == 'cursor' for a in list(args) + list(kw.values())):
@@ -836,7 +863,7 @@ class CursorInterp(Interp):
             return [(bool(v[1]), st)]
         if t in ('tok', 'truthy', 'cursor', 'func', 'closure', 'class', 'node', 'peekwrap'):
             return [(True, st)]
-        if t == 'falsy':
+        if t in ('falsy', 'emptytok'):
             return [(False, st)]
         if t == 'maybe':
             s_t = st.copy()
